@@ -642,6 +642,9 @@ class ServerWorld:
         self.step = -1
         self.ops = []             # attempt trace, see attempt_oracle: ("Q", step, chan, payload) / ("R", step, sock) / ("C", step, sock, ok)
         self.dns_req_fn = None    # the real server.main dns_req closure once got_dns_req carries the observer
+        # what the real loop does at the kernel boundary, for udp_close_oracle: ("sel", i, [socket ids handed to the
+        # select() that begins iteration i]) / ("rx", i, socket id, index of the next log token, payload read)
+        self.watch = []
 
     def pop(self, op=None):
         """the environment's answer to the next socket operation.  ("P", errno, ops) is a PERSISTENT fault rule: it
@@ -698,6 +701,7 @@ def make_sock_class(world):
             it = world.pop("recvfrom")
             if it[0] == "e":
                 raise OSError(it[1], "scripted recvfrom")
+            world.watch.append(("rx", world.step, self.id, len(world.log), it[1][:n] if it[0] in ("f", "d") else b""))
             if it[0] == "f":
                 return it[1][:n], it[2]
             if it[0] == "d":
@@ -743,7 +747,7 @@ def _server_state(world, server):
                                                     len(world.socks))
 
 
-def run_server(to_ns, sysns, events, lbs=32768, resolv=None, trace=None, ops=None):
+def run_server(to_ns, sysns, events, lbs=32768, resolv=None, trace=None, ops=None, watch=None):
     """events: (now, frames, ready, io); frames = [(ch, cmdkey, payload, tag)], ready = [sock id],
     io = [("k",) | ("e", errno) | ("d", bytes) | ("f", bytes, (ip, port)) | ("n", k)]
     Drives the real server.main; returns canonical per-step strings.
@@ -777,6 +781,9 @@ def run_server(to_ns, sysns, events, lbs=32768, resolv=None, trace=None, ops=Non
         else:
             finish_step()
         state["i"] += 1
+        # the read set the real loop hands to select(): the sockets it still waits on (a datagram arriving for a socket
+        # that is not in it - or that was closed - is not seen by the loop, exactly as with the kernel)
+        world.watch.append(("sel", state["i"], sorted(x.id for x in r if hasattr(x, "id"))))
         if state["i"] >= len(events):
             raise StopScript()
         now, frames, ready, io = events[state["i"]]
@@ -876,6 +883,8 @@ def run_server(to_ns, sysns, events, lbs=32768, resolv=None, trace=None, ops=Non
             real_random.setstate(saved_rnd)
         if ops is not None:
             ops.extend(world.ops)
+        if watch is not None:
+            watch.extend(world.watch)
     return out
 
 
@@ -1203,7 +1212,7 @@ def dns_handlers_of(st):
     return out
 
 
-def oracle_server(prop, to_ns, sysns, evs, steps):
+def oracle_server(prop, to_ns, sysns, evs, steps, watch=None):
     bad = []
     udp_sock = {}      # chan -> socket id of the live association
     prev_h, prev_now, aliased = [], None, False
@@ -1301,7 +1310,107 @@ def oracle_server(prop, to_ns, sysns, evs, steps):
         for o in back:
             if unhx(o[3]) not in froms:
                 bad.append(("c11_one_to_one", "step %d: UDP_DATA frame %r matches no received datagram" % (i, o)))
+    if watch is not None and prop != "C10":
+        bad += udp_close_oracle(evs, steps, watch)
     return bad
+
+
+UDP_WHAT = {
+    "c11_udp_association_not_closed_on_server":
+        "'an association idle for 30 seconds is closed on both ends': UDP association closed by the client (UDP_CLOSE processed by "
+        "the server) but the server still holds a live UdpProxy for it - its remote socket is still open and in select's read set",
+    "c11_udp_data_after_close":
+        "server emitted UDP_DATA on a channel after UDP_CLOSE without a new UDP_OPEN for that association: a late reply from the "
+        "remote host, read from the closed association's socket, was forwarded on the closed channel (which may by then belong to another source)",
+    "c11_udp_socket_read_after_close":
+        "the server still read from the remote socket of a UDP association in an iteration after the one that processed its UDP_CLOSE",
+    "c11_reply_delivered_to_another_source":
+        "'each reply is delivered to that source': a reply read from the remote socket of one source's association was delivered to another source",
+}
+
+
+def udp_what(kind):
+    return "%s: %s" % (kind, UDP_WHAT[kind]) if kind in UDP_WHAT else kind
+
+
+UDP_CLOSED_WHAT = ("c11_idle_expiry_closed_on_both_ends: 'an association idle for 30 seconds is closed on both ends' - the server "
+                   "processed the client's UDP_CLOSE for an association in an EARLIER iteration, yet ")
+
+
+def udp_close_oracle(evs, steps, watch):
+    """C11 'closed on both ends ... later traffic opens a fresh one', judged at the server's kernel boundary only (the
+    frames the real loop was fed, the read sets it handed to select(), the recvfrom() calls it made, the frames it put
+    on the tunnel); Props/C11.v c11_idle_expiry_server_close + c11_server_handlers_live state the same of the model (UDP_CLOSE
+    turns the handler's ok flag off; after every iteration only live handlers remain in the list the loop polls).
+    An association = the socket created by a UDP_OPEN frame; it is retired by the UDP_CLOSE frame on its identifier.
+    From the iteration AFTER the one that processed the UDP_CLOSE (inside that iteration the select round had already
+    reported the socket): (a) the socket is no longer in select's read set, (b) no datagram is read from it and no
+    UDP_DATA frame is produced from it - whether or not the identifier has been opened again in the meantime."""
+    bad, held = [], False
+    assoc, retired = {}, {}      # identifier -> socket id of the live association;  socket id -> (identifier, iteration of the close)
+    sel = dict((w[1], w[2]) for w in watch if w[0] == "sel")
+    for i, ev in enumerate(evs):
+        if i >= len(steps) or not steps[i].startswith("OK "):
+            break
+        now, frames = ev[0], ev[1]
+        outs = parse_outs(steps[i])
+        for w in watch:
+            if w[0] == "rx" and w[1] == i and w[2] in retired and retired[w[2]][1] < i:
+                ch, ci = retired[w[2]]
+                o = outs[w[3]] if w[3] < len(outs) else None
+                if o is not None and o[0] == "F" and int(o[2]) == CMD["D"]:
+                    bad.append(("c11_udp_data_after_close",
+                                UDP_CLOSED_WHAT + "in iteration %d (time %d) the server read a late reply %r from the closed association's "
+                                "remote socket %d and emitted UDP_DATA on identifier %d (closed in iteration %d)%s: late reply forwarded "
+                                "on a closed channel" % (i, now, w[4][:40], w[2], int(o[1]), ci,
+                                                         " without a new UDP_OPEN" if int(o[1]) not in assoc else
+                                                         ", which by now belongs to another association (socket %d)" % assoc[int(o[1])])))
+                else:
+                    bad.append(("c11_udp_socket_read_after_close",
+                                UDP_CLOSED_WHAT + "in iteration %d (time %d) it still read from the closed association's socket %d "
+                                "(identifier %d, closed in iteration %d)" % (i, now, w[2], ch, ci)))
+        ks = [o for o in outs if o[0] == "K"]
+        ki = 0
+        for f in frames:
+            if f[1] == "O" and ki < len(ks):
+                assoc[f[0]] = int(ks[ki][1])
+                ki += 1
+            elif f[1] == "C" and f[0] in assoc:
+                retired[assoc.pop(f[0])] = (f[0], i)
+        for sk in ([] if held else sel.get(i + 1, [])):
+            if sk in retired and retired[sk][1] <= i:
+                ch, ci = retired[sk]
+                held = True
+                bad.append(("c11_udp_association_not_closed_on_server",
+                            "c11_idle_expiry_closed_on_both_ends: UDP association on identifier %d closed by the client (UDP_CLOSE "
+                            "processed by the server in iteration %d) but after iteration %d the server still holds a live "
+                            "UdpProxy for it: its remote socket %d is still open and in select's read set (state: %s)"
+                            % (ch, ci, i, sk, steps[i].split(" | ")[1].split(" ")[0][:120])))
+                break
+        if any(w != "c11_udp_association_not_closed_on_server" for w, _ in bad):
+            break        # one report of each kind: still held after the close / a late datagram read and forwarded
+    return bad
+
+
+def late_udp_replies_offered(evs, steps):
+    """coverage of the histories: (UDP_CLOSE frames the server processed for a live association, later iterations in
+    which the script makes the remote socket of such a closed association readable)"""
+    assoc, retired, n = {}, set(), 0
+    nclose = 0
+    for i, ev in enumerate(evs):
+        if i >= len(steps) or not steps[i].startswith("OK "):
+            break
+        n += sum(1 for x in ev[2] if x in retired)
+        ks = [o for o in parse_outs(steps[i]) if o[0] == "K"]
+        ki = 0
+        for f in ev[1]:
+            if f[1] == "O" and ki < len(ks):
+                assoc[f[0]] = int(ks[ki][1])
+                ki += 1
+            elif f[1] == "C" and f[0] in assoc:
+                retired.add(assoc.pop(f[0]))
+                nclose += 1
+    return nclose, n
 
 
 ATTEMPT_WHAT = ("c10_attempts: one DNS query led to more than 3 resolver attempts - the property allows 'at most three attempts on "
@@ -1633,6 +1742,26 @@ class SystemRun:
         self.prev_snow = None    # time of the previous server iteration (its sweep has run)
         self.stale_waits, self.retired_frames = [], []
         self.ops = []            # the schedule, replayable (system_replay)
+        # UDP associations as the wire says (no model): source of every up-link frame, socket of every UDP_OPEN the
+        # server processed, sockets retired by a processed UDP_CLOSE, unique reply payload -> socket it was read from
+        self.up_src = []         # parallel to self.up: the local source whose capture produced the frame (None for sweeps)
+        self.sock_src = {}       # server socket id -> source of the association it was opened for
+        self.usock = {}          # identifier -> socket id of the association the server has open (frames processed)
+        self.retired_socks = []  # sockets of associations closed by a UDP_CLOSE the server processed
+        self.reply_sock = {}     # unique remote reply payload -> server socket it arrived on
+        self.udp_hyp_ok = True   # no identifier handed out while frames of its previous incarnation are in flight (spec side)
+        self.udp_cross = []
+        self.reply_raced = set()
+        self.late_offered = 0    # iterations in which a closed association's socket was made readable
+        self.srv_steps, self.srv_watch = [], []
+
+    def in_flight_spec(self, ch):
+        """no_stale_alloc_any evaluated without the server's handler list (a faulty server's zombies do not excuse
+        anything): an opening frame on the up link, an association / query the server legitimately holds, a frame on
+        the down link"""
+        return (any(f[0] == ch and f[1] in ("Q", "O") for f in self.up)
+                or (ch in self.usock and not any(f[0] == ch and f[1] == "C" for f in self.up))     # FIFO: the close gets there first
+                or any(c == ch for c, _ in self.live) or any(d[0] == ch for d in self.down))
 
     def in_flight(self, ch):
         return (any(f[0] == ch and f[1] == "Q" for f in self.up) or any(c == ch for c, _ in self.live)
@@ -1673,7 +1802,10 @@ class SystemRun:
                     self.hyp_ok = False          # no_stale_alloc is violated by this run
                 if cmd in (CMD["Q"], CMD["O"], 0x4203) and self.in_flight_any(ch):
                     self.hyp_any_ok = False      # no_stale_alloc_any is violated by this run
+                if cmd in (CMD["Q"], CMD["O"], 0x4203) and self.in_flight_spec(ch):
+                    self.udp_hyp_ok = False
                 self.up.append((ch, KEY_OF_CMD.get(cmd, "X"), data, 0))
+                self.up_src.append(tuple(cev[2]) if cev[0] == "U" and cmd == CMD["O"] else None)
         self.steps.append("%s | %s" % (st, self._links()))
         self.log.append("A %s -> %s" % (self.yevs[-1], ",".join(":".join(o) for o in outs) or "~"))
 
@@ -1687,14 +1819,39 @@ class SystemRun:
         self.ops.append(["server_io", now, k, list(ready), [[hx(x) if isinstance(x, bytes) else (list(x) if isinstance(x, tuple) else x)
                                                             for x in it] for it in io]])
         frames, self.up = self.up[:k], self.up[k:]
+        fsrc, self.up_src = self.up_src[:k], self.up_src[k:]
         self.sevs.append((now, frames, ready, io))
         self.yevs.append("S|%d/%d/%s/%s" % (now, k, ",".join(str(x) for x in ready) or "~", ",".join(io_s(i) for i in io) or "~"))
-        steps = run_server(self.to_ns, [], self.sevs)
+        self.late_offered += sum(1 for x in ready if x in self.retired_socks)
+        watch = []
+        steps = run_server(self.to_ns, [], self.sevs, watch=watch)
+        self.srv_steps, self.srv_watch = steps, watch
         st = steps[len(self.sevs) - 1] if len(steps) >= len(self.sevs) else steps[-1]
         if not st.startswith("OK "):
             self.stuck = "server: " + st
             self.steps.append(st + " server")
             return
+        fresh = []
+        for w in watch:
+            if w[0] == "rx" and w[1] == len(self.sevs) - 1 and w[4].startswith(b"uniq-"):
+                self.reply_sock.setdefault(w[4], w[2])
+                if w[2] not in self.retired_socks:
+                    fresh.append((w[4], w[2]))
+        ks = [o for o in parse_outs(st) if o[0] == "K"]
+        ki = 0
+        chan_of = dict((v, c) for c, v in self.usock.items())
+        for f, src in zip(frames, fsrc):
+            if f[1] == "O" and ki < len(ks):
+                self.usock[f[0]] = int(ks[ki][1])
+                self.sock_src[int(ks[ki][1])] = src
+                ki += 1
+            elif f[1] == "C" and f[0] in self.usock:
+                self.retired_socks.append(self.usock.pop(f[0]))
+        # a reply the select round had reported before this iteration's UDP_CLOSE was processed crossed the close on the wire:
+        # like a frame already on the down link, it is 'in flight' (not judged by the cross-delivery oracle)
+        # (so is a reply read while the client's UDP_CLOSE for that association was still waiting on the up link)
+        self.reply_raced.update(p for p, sk in fresh if sk in self.retired_socks
+                                or any(f[0] == chan_of.get(sk) and f[1] == "C" for f in self.up))
         for o in parse_outs(st):
             if o[0] == "S":
                 self.sock_req[int(o[1])] = unhx(o[2])
@@ -1759,6 +1916,16 @@ class SystemRun:
                     asker = self.asked.get(req)
                     if asker is None or addr_s(asker) != o[2]:
                         self.cross.append("answer %r to the query %r of %r was delivered to %s" % (payload, req, asker, o[2]))
+                if kind == "D":
+                    # 'each reply is delivered to THAT source': a unique reply read from the remote socket of source X's
+                    # association may only ever be handed to X
+                    body = data.split(b",", 2)[-1]
+                    sk = self.reply_sock.get(body)
+                    owner = self.sock_src.get(sk)
+                    if sk is not None and owner is not None and addr_s(owner) != o[2] and body not in self.reply_raced:
+                        self.udp_cross.append("the reply %r, read by the server from remote socket %d of the association of source %r%s, "
+                                              "was delivered to %s" % (body, sk, owner, " (an association the client had closed with "
+                                                                      "UDP_CLOSE before the reply came)" if sk in self.retired_socks else "", o[2]))
         self.steps.append("%s | %s" % (st, self._links()))
         self.log.append("V ch=%d %s -> %s" % (ch, hx(data), ",".join(":".join(o) for o in outs) or "~"))
 
@@ -1831,7 +1998,10 @@ def system_random_mixed(rng, maxc, n):
                 r.accept_ev(("T", cnow, 2, ("9.9.9.9", 80)))
         elif c == "S":
             snow += rng.choice([0, 1, 5, 29, 30, 31])
-            ready = sorted(set(rng.choice(r.socks) for _ in range(rng.choice([0, 1, 1, 2])))) if r.socks else []
+            # what becomes readable is the REMOTE HOST's business: also the socket of an association the client has closed
+            # meanwhile (a late reply).  A correct server no longer selects on it, so nothing happens then.
+            pool = r.socks + [x for x in r.retired_socks if x not in r.socks]
+            ready = sorted(set(rng.choice(pool) for _ in range(rng.choice([0, 1, 1, 2])))) if pool else []
             io = []
             for _ in range(rng.choice([0, 0, 2, 3, 5])):
                 x = rng.random()
@@ -1840,12 +2010,66 @@ def system_random_mixed(rng, maxc, n):
                 elif x < 0.6:
                     io.append(("d", b"r%d" % rng.randint(0, 99)))
                 elif x < 0.85:
-                    io.append(("f", rng.choice([b"re,ply", b"", b"x"]), rng.choice(dsts)))
+                    io.append(("f", rng.choice([b"re,ply", b"", b"x", b"uniq-%d,%d" % (qn, len(r.sevs))]), rng.choice(dsts)))
                 else:
                     io.append(("e", rng.choice(NET_ERRS + OTHER_ERRS)))
             r.server_io(snow, rng.randint(0, len(r.up)), ready, io)
         else:
             r.deliver(None if rng.random() < 0.9 else rng.choice(NET_ERRS))
+    return r
+
+
+def system_udp_idle_case(rng, maxc):
+    """'An association idle for 30 seconds is closed on both ends and later traffic from the same source opens a fresh
+    one', end to end with LATE REPLIES FROM THE REMOTE HOST: source A sends a datagram (UDP_OPEN + UDP_DATA reach the
+    server, possibly answered in time); A goes idle for `gap` seconds around the 30-second horizon; another capture
+    (a datagram of source B or a DNS query) makes the client run its lazy sweep, the UDP_CLOSE reaches the server - in
+    its own iteration or together with the new frames; AFTER that the remote host's reply arrives for A's old socket
+    (once or several times, before and after B's traffic); everything is delivered; A sends again.  Unique replies."""
+    A, B, R = ("10.0.0.1", 4001), ("10.0.0.2", 4002), rng.choice([("8.8.8.8", 53), ("fd00::53", 65535)])
+    r = SystemRun(maxc, method="T")
+    c = s = rng.choice([0, 100, 1000000])
+    n = [0]
+
+    def reply(sock, t):
+        n[0] += 1
+        r.server_io(t, 0, [sock], [("f", b"uniq-late-%d" % n[0], R)])
+    r.accept_ev(("U", c, A, R, b"from-A"))
+    r.server_io(s, len(r.up), [], [])
+    old = list(r.socks)
+    if old and rng.random() < 0.5:
+        reply(old[0], s + 1)                       # a reply in time
+        while r.down and not r.stuck:
+            r.deliver()
+    gap = rng.choice([29, 30, 31, 31, 32, 60, 100])
+    other = rng.choice(["U", "U", "D"])
+    if other == "U":
+        r.accept_ev(("U", c + gap, B, R, b"from-B"))
+    else:
+        r.accept(c + gap, B, b"query-of-B")
+    if not r.stuck and rng.random() < 0.6:
+        # B again: when the identifier space is tiny its first datagram found no identifier free (it only ran the sweep);
+        # this one is handed the identifier A's association has just given back
+        r.accept_ev(("U", c + gap, B, R, b"from-B-2"))
+    if r.stuck:
+        return r
+    split = rng.random() < 0.5                     # the UDP_CLOSE alone first, or together with B's frames
+    r.server_io(s + gap, min(1, len(r.up)) if split else len(r.up), [], [("k",)] * 3)
+    for t in range(rng.choice([1, 1, 2])):
+        if old and not r.stuck:
+            reply(old[0], s + gap + 1 + t)         # the late reply: A's association is closed if gap > 30
+    if r.up and not r.stuck:
+        r.server_io(s + gap + 3, len(r.up), [], [("k",)] * 3)
+    if old and not r.stuck and rng.random() < 0.7:
+        reply(old[0], s + gap + 4)
+    while r.down and not r.stuck:
+        r.deliver()
+    if not r.stuck:
+        r.accept_ev(("U", c + gap + 5, A, R, b"from-A-again"))
+    if not r.stuck:
+        r.server_io(s + gap + 5, len(r.up), old[:1], [("k",), ("f", b"uniq-last", R)])
+    while r.down and not r.stuck:
+        r.deliver()
     return r
 
 
@@ -1875,7 +2099,7 @@ def system_f81_witness():
     return r
 
 
-def _system_cases(ctx, rng, quick):
+def _system_cases(ctx, rng, quick, prop="C10"):
     """the composed system: model of the composition vs the real composition, step by step; C10: no reply goes to
     another requester unless the run violates no_stale_alloc; C11: neither side fails unless the run violates
     no_stale_alloc_any, the server never"""
@@ -1911,6 +2135,9 @@ def _system_cases(ctx, rng, quick):
         maxc = rng.choice([65535, 65535, 8, 2])
         runs.append((system_random(rng, maxc, rng.randint(5, 14), srcs=V6_SCOPED, method="T" if i % 2 else "B", family=10),
                      "dns_scoped_askers"))
+    if prop != "C10":
+        for i in range(60 if quick else 1500):
+            runs.append((system_udp_idle_case(rng, rng.choice([65535, 65535, 8, 2, 1])), "udp_idle_late_reply"))
     outs = ctx.run_driver([r.line(fx) for r, _ in runs])
     for (r, kind), o in zip(runs, outs):
         model = split_steps(o)
@@ -1940,6 +2167,12 @@ def _system_cases(ctx, rng, quick):
             ctx.violation("c10_expired_query_still_waited_on", dict(system_rep(r), detail=r.stale_waits[0]))
         if r.retired_frames:
             ctx.violation("c10_reply_relayed_after_expiry", dict(system_rep(r), detail=r.retired_frames[0]))
+        ctx.count("system_udp_closes_processed_by_server", len(r.retired_socks))
+        ctx.count("system_late_replies_offered_to_closed_udp_sockets", r.late_offered)
+        ctx.count("system_unique_udp_replies_read", len(r.reply_sock))
+        if prop != "C10":
+            for what, detail in system_udp_verdict(r):
+                ctx.violation(udp_what(what), dict(system_rep(r), detail=detail))
         if r.stuck and r.stuck.startswith("server") and not (r.stuck == "server: FATAL" and not fx["F80"]):
             ctx.violation("c11_system_server_never_raises", {"system_log": r.log, "line": r.line(fx), "detail": r.stuck})
         elif r.stuck and r.stuck.startswith("client"):
@@ -1999,6 +2232,15 @@ def system_verdict(r):
         v.append(("expired_query_still_waited_on", r.stale_waits[0]))
     if r.cross and r.hyp_ok:
         v.append(("foreign_answer_delivered", r.cross[0]))
+    return v + system_udp_verdict(r)
+
+
+def system_udp_verdict(r):
+    """C11 on the composition, implementation only: the server end of a closed association (udp_close_oracle on the
+    real server's boundary) and 'each reply is delivered to that source' with unique replies"""
+    v = udp_close_oracle(r.sevs, r.srv_steps, r.srv_watch)
+    if r.udp_cross and r.udp_hyp_ok:
+        v.append(("c11_reply_delivered_to_another_source", r.udp_cross[0]))
     return v
 
 
@@ -2133,7 +2375,7 @@ def run_check(ctx, prop):
     run_main_cases(ctx, prop)
     if prop == "C10":
         run_c10_resolv(ctx)
-    _system_cases(ctx, rng, quick)
+    _system_cases(ctx, rng, quick, prop)
 
     # ---- client scripts
     cases = [(m, mc, fam, evs, "handmade") for m, mc, fam, evs in handmade_client(prop)]
@@ -2195,14 +2437,15 @@ def run_check(ctx, prop):
         for _ in range(150 if quick else 3000):
             t, s, evs = gen_attempt_script(rng, quick)
             cases.append((t, s, evs, "attempts"))
-    lines, impls, opss = [], [], []
+    lines, impls, opss, watches = [], [], [], []
     for t, s, evs, kind in cases:
         lines.append(server_line(fx, t, s, evs))
-        ops = []
-        impls.append(run_server(t, s, evs, ops=ops))
+        ops, watch = [], []
+        impls.append(run_server(t, s, evs, ops=ops, watch=watch))
         opss.append(ops)
+        watches.append(watch)
     outs = ctx.run_driver(lines)
-    for (t, s, evs, kind), ln, impl, o, ops in zip(cases, lines, impls, outs, opss):
+    for (t, s, evs, kind), ln, impl, o, ops, watch in zip(cases, lines, impls, outs, opss, watches):
         model = split_steps(o)
         att_viol, att_counts = attempt_oracle(ops)
         ctx.count("server_dns_queries_dispatched", len(att_counts))
@@ -2215,7 +2458,10 @@ def run_check(ctx, prop):
         ctx.count("server_iterations", len(evs))
         ctx.count("server_dns_responses", sum(s_.count(":%d:" % CMD["R"]) for s_ in impl))
         ctx.count("server_end_" + (impl[-1].split(" ")[0] if impl and not impl[-1].startswith("OK") else "OK"))
-        viol = oracle_server(prop, t, s, evs, impl) + (att_viol if prop == "C10" else [])
+        viol = oracle_server(prop, t, s, evs, impl, watch) + (att_viol if prop == "C10" else [])
+        n_late = late_udp_replies_offered(evs, impl)
+        ctx.count("server_udp_closes_processed", n_late[0])
+        ctx.count("server_late_replies_offered_to_closed_udp_sockets", n_late[1])
         ctx.case(("server", ln), nontrivial=len(impl) > 1,
                  sample={"side": "server", "to_ns": t, "iterations": len(evs), "last_step": impl[-1][:160] if impl else ""})
         if impl != model:
@@ -2227,7 +2473,7 @@ def run_check(ctx, prop):
                 continue
             if what == "fatal" and not fx["F80"]:
                 continue      # reported once through the defect witness F80
-            ctx.violation(what, {"script": ser_server(t, s, evs), "detail": detail})
+            ctx.violation(udp_what(what), {"script": ser_server(t, s, evs), "detail": detail})
     ctx.programs = ctx.evaluations
 
 
@@ -2254,9 +2500,9 @@ def replay(ctx, rp, prop):
         return bool(v)
     if sc and sc.get("side") == "server":
         t, s, evs = des_server(sc)
-        ops = []
-        impl = run_server(t, s, evs, ops=ops)
-        v = oracle_server(prop, t, s, evs, impl) + (attempt_oracle(ops)[0] if prop == "C10" else [])
+        ops, watch = [], []
+        impl = run_server(t, s, evs, ops=ops, watch=watch)
+        v = oracle_server(prop, t, s, evs, impl, watch) + (attempt_oracle(ops)[0] if prop == "C10" else [])
         print("server script ->", impl[-1] if impl else "", v)
         return bool(v)
     print("nothing replayable in", rp.get("kind"))
